@@ -34,7 +34,26 @@ func NewFeature(address *model.FeatureAddressType, ftype model.FeatureTypeType, 
 }
 
 func (r *Feature) Address() *model.FeatureAddressType {
+	r.muxFeature.RLock()
+	defer r.muxFeature.RUnlock()
+
 	return r.address
+}
+
+// Set the device part of the address if it is not known yet.
+//
+// Address() hands out the address, so it must not be changed in place
+func (r *Feature) completeDeviceAddress(device *model.AddressDeviceType) {
+	r.muxFeature.Lock()
+	defer r.muxFeature.Unlock()
+
+	if r.address == nil || r.address.Device != nil {
+		return
+	}
+
+	newAddress := *r.address
+	newAddress.Device = device
+	r.address = &newAddress
 }
 
 func (r *Feature) Type() model.FeatureTypeType {
